@@ -15,7 +15,9 @@ def codec_cfgs(quick):
     cfgs = [{"codec": "w3", "blocklimit": 1}, {"codec": "w3", "blocklimit": 2}, {"codec": "w3", "blocklimit": 3},
             {"codec": "w3", "blocklimit": 128}, {"codec": "w3", "blocklimit": 4, "compression": 0},
             {"codec": "w3", "blocklimit": 4, "compression": 9}, {"codec": "w3", "blocklimit": 2, "inlinelimit": 3},
-            {"codec": "memory"}, {"codec": "memory", "sessions": 2}, {"codec": "plaintext"}]
+            {"codec": "memory"}, {"codec": "memory", "sessions": 2}, {"codec": "plaintext"},
+            # the statistics of a term are combined over segments (document numbers shifted by the segment's offset)
+            {"codec": "w3", "blocklimit": 2, "segments": 2}, {"codec": "w3", "blocklimit": 128, "segments": 3}]
     return cfgs
 
 
@@ -42,10 +44,13 @@ def build(cfg, schema, adocs, keys):
         from whoosh.codec.whoosh3 import W3Codec
         codec = W3Codec(blocklimit=cfg.get("blocklimit", 128), compression=cfg.get("compression", 3),
                         inlinelimit=cfg.get("inlinelimit", 1))
-    w = ix.writer(codec=codec)
-    for k in keys:
-        w.add_document(**cworld.concrete_kwargs(adocs[k]))
-    w.commit()
+    nseg = min(cfg.get("segments", 1), len(keys))
+    per = (len(keys) + nseg - 1) // nseg
+    for i in range(0, len(keys), per):
+        w = ix.writer(codec=codec)
+        for k in keys[i:i + per]:
+            w.add_document(**cworld.concrete_kwargs(adocs[k]))
+        w.commit(merge=False)
     rd = ix.reader()
     return rd, rd.close
 
